@@ -97,9 +97,25 @@ def c04_transients():
     d.close()
 
 
+def c04_two_sources_double_eject():
+    import c04
+    d = c04.make_driver("vuk-to-plunger")()
+    d.boot()
+    for c in [["start"], ["kick", "bd_trough", "ok"], "T", "T", "T", ["kick", "bd_plunger", "ok"], "T", "T", ["shoot", "bd_vuk"], "T",
+              ["add"], ["kick", "bd_vuk", "ok"], "T"]:
+        d.step(c)
+    print("C04 two sources, one place: %s" % ([s for s, _ in d.violations if "fired-at-full" in s] or "no coil fired at a full device",))
+    print("    world log (pulse/kick/arrive): %r" % (d.w.log[-6:],))
+    d.finish()
+    pl = d.m.ball_devices["bd_plunger"]
+    print("    at rest: bd_plunger state=%s available_balls=%d; playfield balls=%d available_balls=%d" %
+          (pl.state, pl.available_balls, d.m.playfield.balls, d.m.playfield.available_balls))
+    d.close()
+
+
 if __name__ == "__main__":
     for f in (c01_dropped_at_post, c12_pow2, c14_writer_never_pauses, c14_lost_response_never_retried, c14_undecodable_byte,
-              c04_transients):
+              c04_transients, c04_two_sources_double_eject):
         try:
             f()
         except Exception as e:      # noqa
